@@ -569,6 +569,10 @@ func (s *attackSim) checkStops(final bool) {
 // a hit that the pacer has released and whose wait has elapsed must have
 // started unless max-workers hits are in flight.
 func (s *attackSim) checkQuiescent() {
+	if s.stopWaitsForClock() {
+		s.fail("C02", "C02.close-waits-for-the-clock", "a Stop call has returned, every started hit (%d) has delivered its result and every goroutine is blocked, yet the results channel is still open: the attack waits for the clock (the pacer's wait for a hit that will never start) before it ends", s.S)
+		return
+	}
 	if s.staleRelease() {
 		s.fail("C03", "C03.progress", "pacer released hit #%d and the loop has gone on to pace hit #%d, only %d of %d workers are busy, every goroutine is blocked, yet hit #%d has not started (a released hit starts without waiting for another request to finish, or for the next one to be due)", s.S, s.P-1, s.inflight(), s.cfg.M, s.S)
 		return
@@ -610,6 +614,35 @@ func (s *attackSim) afterAdvance() {
 		s.durTrig = true
 		s.trigger("duration-elapsed")
 	}
+}
+
+// stopWaitsForClock: "once Stop is called the channel is closed, only after every in-flight hit has delivered its
+// result" - the closing waits for the hits in flight and for nothing else. At a clean quiescent state in which a
+// Stop call has returned and no hit is in flight the channel must therefore be closed already: what would still
+// end the attack then is the passage of time alone (liveness is judged in steps once the faults have stopped, not
+// in simulated seconds, and the pacer's wait may be an hour).
+func (s *attackSim) stopWaitsForClock() bool {
+	if s.closed || s.viol != nil || s.S != s.C {
+		return false
+	}
+	stopped := false
+	for _, c := range s.stops {
+		stopped = stopped || c.done
+	}
+	if !stopped {
+		return false
+	}
+	idle := 0
+	for _, ar := range s.w.Pending {
+		switch ar.Kind {
+		case simrt.KBP, simrt.KSelect, simrt.KLockWait, kPaceAns, kPace, kTarget, kRTEnter, kBodyRead, kConsumed:
+			return false
+		case kConsIdle:
+			idle++
+		}
+	}
+	// the close is seen through a consumer: one of them must be inside a receive (not parked before its first one)
+	return idle < s.cfg.Consumers
 }
 
 // staleRelease: the loop asks the pacer about hit k+1 only after hit k has been handed to a worker, so at a clean
